@@ -12,8 +12,10 @@ open Tak
 /-- the model's `Move` as the regenerated `tak.Move` struct (`Type` is a byte) -/
 def genMove (m : Move) : Gen.Move := { X := m.x, Y := m.y, Type_ := BitVec.ofNat 8 m.type, Slides := m.slides }
 
+/-- the model's `wrap8` is the one of the generated prelude -/
 theorem wrap8_is_source (v : Int) : wrap8 v = Gen.wrap8 v := rfl
 
+/-- the counter of the regenerated `Len` loop after `n` rounds is the number of nibbles the model's iteration yields -/
 theorem slidesLen_loop_fst (n : Nat) (l : Int) (s : BitVec 32) :
     (Gen.slidesLen_loop0 n (l, s)).1 = l + (slideElems n s).length := by
   induction n generalizing l s with
@@ -26,6 +28,7 @@ theorem slidesLen_loop_fst (n : Nat) (l : Int) (s : BitVec 32) :
       simp only [Gen.slidesLen_loop0, hb, slideElems, hb', if_true]
       rw [ih]; simp; omega
 
+/-- after `n` rounds the word of the regenerated `Len` loop is 0 or `s >>> 4n` -/
 theorem slidesLen_loop_snd (n : Nat) (l : Int) (s : BitVec 32) :
     (Gen.slidesLen_loop0 n (l, s)).2 = 0#32 ∨ (Gen.slidesLen_loop0 n (l, s)).2 = s >>> (4 * n) := by
   induction n generalizing l s with
@@ -62,6 +65,7 @@ theorem slidesLen_is_source (s : BitVec 32) : (Slides.len s : Int) = Gen.slidesL
   rw [h]; simp
 
 
+/-- a slide word has at most 8 nibbles -/
 theorem slidesLen_le (s : BitVec 32) : Slides.len s ≤ 8 := by
   have h : ∀ n s, (slideElems n s).length ≤ n := by
     intro n; induction n with
@@ -69,6 +73,7 @@ theorem slidesLen_le (s : BitVec 32) : Slides.len s ≤ 8 := by
     | succ n ih => intro s; simp only [slideElems]; split <;> simp; exact ih _
   exact h 8 s
 
+/-- comparing two bytes below 256 as `BitVec 8` or as numbers is the same -/
 theorem ofNat8_eq (a b : Nat) (ha : a < 256) (hb : b < 256) : (BitVec.ofNat 8 a == BitVec.ofNat 8 b) = (a == b) := by
   by_cases h : a = b
   · subst h; simp
